@@ -2,6 +2,7 @@ package main
 
 import (
 	"fmt"
+	"go/constant"
 	"go/token"
 	"go/types"
 	"reflect"
@@ -610,15 +611,29 @@ func runC20(c *Ctx, w *World, r *Report) {
 				}
 			}
 			if len(heads) > 0 {
-				seen := map[*ssa.BasicBlock]bool{}
-				st := []*ssa.BasicBlock{sizeof.Blocks[0]}
-				seen[sizeof.Blocks[0]] = true
+				// states are CFG edges (pred -> block): a branch on a merged boolean constant (the `ok` of a dissolved
+				// two-result helper) is decided by the edge the merge was entered through
+				type edge struct{ from, to *ssa.BasicBlock }
+				seen := map[edge]bool{}
+				st := []edge{{nil, sizeof.Blocks[0]}}
 				for len(st) > 0 && len(miss) == 0 {
-					b := st[len(st)-1]
+					cur := st[len(st)-1]
 					st = st[:len(st)-1]
+					b := cur.to
 					if _, isRet := b.Instrs[len(b.Instrs)-1].(*ssa.Return); isRet {
 						miss = append(miss, fmt.Sprintf("the enumeration of every part on every path: the return at %s is reached without passing the loop over the parts (a fast path or shortcut that sizes this %s some other way); only an edge taken when the part count is 0 may bypass it", w.InstrPos(b.Instrs[len(b.Instrs)-1]), strings.ToLower(kn)))
 						break
+					}
+					// a path that sizes the parts uniformly by the size of their (scalar) type accounts for every part
+					uniform := false
+					for _, ins := range b.Instrs {
+						if call, ok := ins.(*ssa.Call); ok && call.Common().IsInvoke() && call.Common().Method.Name() == "Size" &&
+							strings.HasSuffix(types.TypeString(call.Common().Value.Type(), nil), "reflect.Type") && typeSizeGuardedScalar(fa, call) {
+							uniform = true
+						}
+					}
+					if uniform {
+						continue
 					}
 					succs := b.Succs
 					if ifi, ok := b.Instrs[len(b.Instrs)-1].(*ssa.If); ok && len(b.Succs) == 2 {
@@ -628,10 +643,23 @@ func runC20(c *Ctx, w *World, r *Report) {
 							} else {
 								succs = b.Succs[1:]
 							}
+						} else if p, isPhi := ifi.Cond.(*ssa.Phi); isPhi && p.Block() == b && cur.from != nil {
+							for i, pr := range b.Preds {
+								if pr != cur.from {
+									continue
+								}
+								if c, isC := p.Edges[i].(*ssa.Const); isC && c.Value != nil && c.Value.Kind() == constant.Bool {
+									if constant.BoolVal(c.Value) {
+										succs = b.Succs[:1]
+									} else {
+										succs = b.Succs[1:]
+									}
+								}
+							}
 						}
 					}
 					for _, sc := range succs {
-						if !slice[sc] || seen[sc] || heads[sc] {
+						if !slice[sc] || seen[edge{b, sc}] || heads[sc] {
 							continue
 						}
 						empty := false
@@ -643,8 +671,8 @@ func runC20(c *Ctx, w *World, r *Report) {
 						if empty {
 							continue
 						}
-						seen[sc] = true
-						st = append(st, sc)
+						seen[edge{b, sc}] = true
+						st = append(st, edge{b, sc})
 					}
 				}
 				if len(miss) == 0 {
